@@ -113,7 +113,10 @@ func mapBounds() int {
 
 // VF_Map_L1: two concurrent remote map operations commute (C01), keep the
 // invariant (L3) and the winner is the operation with the greatest timestamp (C02).
-func VF_Map_L1() {
+func VF_Map_L1()  { mapL1(modeC01) }
+func VF_Map_C02() { mapL1(modeC02) }
+
+func mapL1(mode int) {
 	k := vf.Choice("k", mapBounds()+1)
 	sp := vfMapSpec("S", k)
 	a, b := vfMapOp("a", sp), vfMapOp("b", sp)
@@ -170,8 +173,12 @@ func VF_Map_L1() {
 				}
 			}
 		}
-		vf.Assert(s1.get(key) == bestV, "C02 greatest timestamp wins")
-		vf.Assert(s2.get(key) == bestV, "C02 greatest timestamp wins (other order)")
+		if mode&modeC02 != 0 {
+			vf.Assert(s1.get(key) == bestV, "C02 greatest timestamp wins")
+			vf.Assert(s2.get(key) == bestV, "C02 greatest timestamp wins (other order)")
+		} else {
+			vf.Assert(s1.get(key) == s2.get(key), "C01 same read")
+		}
 	}
 	// observable equality
 	j1, j2 := s1.ToJSON().(map[string]interface{}), s2.ToJSON().(map[string]interface{})
